@@ -688,6 +688,15 @@ def v9_to_v14(ctx: Any, vm: Any) -> None:
     ctx.check('C06.V14', True, vm, cam['is_active'], 'no 0-based comparison found', func='Camera.is_active', text='active camera comparisons scanned')
 
 
+def _anc06(mod: Any, n: ast.AST, stop: Any) -> List[ast.AST]:
+    out = []
+    p = mod.parents.get(n)
+    while p is not None and p is not stop:
+        out.append(p)
+        p = mod.parents.get(p)
+    return out
+
+
 def run(ctx: Any, prog: Program) -> None:
     vm = prog.module('vmf')
     res = KeyResolver(vm, Folder(prog, vm))
@@ -806,7 +815,7 @@ def run(ctx: Any, prog: Program) -> None:
     # depend on what was parsed earlier in the process as well.
     ctx.rule('C06.V24', 'parsers do not normalise, fold or memoise the values they read', floor=1)
     NORM24 = {'Vec.bbox', 'sorted', 'min', 'max', 'abs', 'round', 'sys.intern'} - {'sys.intern'}
-    NORM24_M = {'casefold', 'lower', 'upper', 'strip', 'lstrip', 'rstrip', 'title', 'swapcase'}
+    NORM24_M = {'casefold', 'lower', 'upper', 'strip', 'lstrip', 'rstrip', 'title', 'swapcase', 'replace', 'expandtabs', 'translate'}
     READS24 = {'vec', 'int', 'float', 'bool', 'find_key', 'find_block', 'find_all'}
     mod_containers = {t.id for st in vm.tree.body if isinstance(st, (ast.Assign, ast.AnnAssign)) and st.value is not None and isinstance(st.value, (ast.Dict, ast.List, ast.Set))
                       for t in (st.targets if isinstance(st, ast.Assign) else [st.target]) if isinstance(t, ast.Name)}
@@ -832,11 +841,24 @@ def run(ctx: Any, prog: Program) -> None:
                 if d24 in NORM24 and any(is_read24(a) for a in c.args):
                     ctx.check('C06.V24', False, vm, c, f'{q24} passes what it read through `{U(c)[:60]}`: the value in the file is changed on the way in, so a value that export() wrote (the two corners of a cordon in any order) '
                               'comes back different', func=q24, text=f'{q24}: `{U(c)[:40]}` on a parsed value')
-                if isinstance(c.func, ast.Attribute) and c.func.attr in NORM24_M and is_read24(c.func.value):
+                if isinstance(c.func, ast.Attribute) and c.func.attr in NORM24_M and (is_read24(c.func.value) or (isinstance(c.func.value, ast.Attribute) and c.func.value.attr == 'value' and isinstance(c.func.value.value, ast.Name))):
                     ctx.check('C06.V24', False, vm, c, f'{q24} folds / trims a string it read (`{U(c)[:60]}`): the exact spelling in the file is what export() wrote', func=q24, text=f'{q24}: `{U(c)[:40]}` on a parsed value')
                 if isinstance(c.func, ast.Attribute) and isinstance(c.func.value, ast.Name) and c.func.value.id in mod_containers and c.func.attr in ('setdefault', 'append', 'add', 'update', 'pop', 'insert', 'extend'):
                     ctx.check('C06.V24', False, vm, c, f'{q24} writes to the module-level container `{c.func.value.id}` (`{U(c)[:60]}`): what a later parse returns then depends on what was parsed before in the same process',
                               func=q24, text=f'{q24}: no module-level state')
+    # ... and in the order they were read: the lists a parser fills while it walks the file go to the constructor as they are.  Two lists filled in
+    # the same walk and glued together afterwards (`solids + hidden_solids`) move every item of the second behind the first - the exporter
+    # writes list order, so the file no longer re-parses to the same order
+    for q24, fl24 in vm.all_funcs().items():
+        if not (q24.endswith('.parse') or '._parse' in q24):
+            continue
+        for f24 in fl24:
+            filled = {c.func.value.id for c in walk_no_nested(f24) if isinstance(c, ast.Call) and isinstance(c.func, ast.Attribute) and c.func.attr == 'append' and isinstance(c.func.value, ast.Name)
+                      and any(isinstance(l_, (ast.For, ast.While)) for l_ in _anc06(vm, c, f24))}
+            for b24 in walk_no_nested(f24):
+                if isinstance(b24, ast.BinOp) and isinstance(b24.op, ast.Add) and isinstance(b24.left, ast.Name) and isinstance(b24.right, ast.Name) and b24.left.id in filled and b24.right.id in filled and b24.left.id != b24.right.id:
+                    ctx.check('C06.V24', False, vm, b24, f'{q24} builds a collection as `{U(b24)}` from two lists filled during the same walk of the file: the items of `{b24.right.id}` all come after those of `{b24.left.id}`, '
+                              'whatever order the file had them in - export() writes list order, so the second export differs from the first', func=q24, text=f'{q24}: parsed items keep file order')
     ctx.shape('C06.V24', n24 >= 8, vm, vm.tree, f'{n24} parse functions examined in vmf.py (8 confirmed by hand)', func='<module>', text='parse functions examined')
 
     # ---- V23: numbered items are put in order as numbers -------------------------------------------------------------------------------------
@@ -1601,6 +1623,8 @@ def elt_token_alternatives(elt: ast.AST, tokens_of_type: Dict[str, int]) -> Opti
 
 
 MUTANTS = [
+    {'id': 'comment_unescaped_a_second_time', 'file': 'vmf.py', 'find': "                            comment = editor_prop.value\n", 'replace': "                            comment = editor_prop.value.replace('\\\\n', '\\n')\n", 'expect': 'C06.V24'},
+    {'id': 'hidden_brushes_collected_separately', 'file': 'vmf.py', 'find': "                            solids.append(Solid.parse(vmf_file, brush_prop, hidden=True))", 'replace': "                            hidden_solids.append(Solid.parse(vmf_file, brush_prop, hidden=True))", 'extra': [{'file': 'vmf.py', 'find': "        solids: list[Solid] = []\n        keys: dict[str, str] = {}", 'replace': "        solids: list[Solid] = []\n        hidden_solids: list[Solid] = []\n        keys: dict[str, str] = {}"}, {'file': 'vmf.py', 'find': "            outputs,\n            solids,\n            hidden,", 'replace': "            outputs,\n            solids + hidden_solids,\n            hidden,"}], 'expect': 'C06.V24'},
     {'id': 'zero_rows_skipped_by_shared_reader', 'file': 'vmf.py', 'find': "        for y, split in self._iter_disp_row(tree, name, 3 * size):\n", 'replace': "        for y, split in self._iter_disp_row(tree, name, 3 * size):\n            if split.count('0') == len(split):\n                continue\n", 'expect': 'C06.V26'},
     {'id': 'fixup_export_writes_folded_key', 'file': 'vmf.py', 'find': "        for fixup in sorted(self._fixup.values(), key=operator.attrgetter('id')):", 'replace': "        for var, fixup in sorted(self._fixup.items(), key=lambda item: (item[1].id, item[0])):", 'extra': [{'file': 'vmf.py', 'find': "${escape_text(fixup.var)} {escape_text(fixup.value)}", 'replace': "${escape_text(var)} {escape_text(fixup.value)}"}], 'expect': 'C06.V27'},
     {'id': 'disp_collision_bits_swapped_in_writer_table', 'file': 'vmf.py', 'find': "    v: k for (k, v) in\n    list(enumerate(_DISP_FLAG_TO_COLL))[::-1]\n", 'replace': "    coll: (\n        (0 if DispFlag.COLL_PHYSICS in coll else 2) |\n        (0 if DispFlag.COLL_BULLET in coll else 4) |\n        (0 if DispFlag.COLL_PLAYER_NPC in coll else 8)\n    ) for coll in _DISP_FLAG_TO_COLL\n", 'expect': 'C06.V25'},
